@@ -427,6 +427,33 @@ def judge_owner_swap(ctx, text, auto):
                         break
 
 
+def judge_slot_swap(ctx):
+    """Same type, same text, same tokens - but the one header string sits in ANOTHER child slot of the transaction (the
+    three adjacent string slots print alike): which child holds a token is structure, so the models (and the documents
+    around them) are unequal, in both directions; the same slot gives equal models."""
+    built = []
+    for slot in ('raw_string0', 'raw_string1', 'raw_string2'):
+        f = parse('2000-01-01 *\n  Assets:A  1 USD\n', True)
+        t = f.raw_directives[0]
+        try:
+            setattr(t, slot, models.EscapedString.from_value('Cafe'))
+        except Exception:   # noqa: BLE001 - the edit itself failed: not C20's business
+            continue
+        built.append((slot, f, t, intro.pr(f)))
+    for sa, fa, ta, xa in built:
+        for sb, fb, tb, xb in built:
+            if xa != xb:
+                continue
+            ctx.case(('slot-swap', sa, sb))
+            for x, y, lvl in ((fa, fb, 'document'), (ta, tb, 'holder')):
+                e = safe_eq(x, y)
+                if e is not (sa == sb):
+                    ctx.oracle_fail(f'C20:slot-swap:{"unequal-same-slot" if sa == sb else "equal-although-another-slot-holds-the-string"}:{lvl}',
+                                    f'two transactions printing {xa.splitlines()[0]!r}, the string in {sa} / {sb}: == gives {e} at the {lvl} level',
+                                    {'text': xa, 'auto_claim': True, 'site': None, 'slot_swap': [sa, sb]})
+                    return
+
+
 def judge_hash_after_edit(ctx, root, replay):
     """Token == is consistent with hash also after in-place edits: hash a token, change it through its setters, then
     compare it (and its hash) with an independently built token of the same RULE and text."""
@@ -491,6 +518,7 @@ def run(ctx, ndocs=None, lockstep=True):
     judge = Judge(ctx, lockstep)
     for fx in SWAP_FIXTURES:
         judge_owner_swap(ctx, fx, True)
+    judge_slot_swap(ctx)
     corpus = list(docs.corpus('File'))
     for _ in range(ndocs):
         text = r.choice(corpus) if corpus and r.random() < 0.3 else docs.gen_file(r, r.choice((1, 2, 3, 5)))
@@ -639,6 +667,9 @@ def _replay(ctx, rep, text, auto, before):
     site = rep.get('site')
     if rep.get('owner_swap'):
         judge_owner_swap(ctx, text, auto)
+        return len(ctx.oracle_fails) == before
+    if rep.get('slot_swap'):
+        judge_slot_swap(ctx)
         return len(ctx.oracle_fails) == before
     if site is None:
         if 'paths' in rep:
